@@ -19,4 +19,14 @@ PROPS = {
             "ChannelMux pipelines produce exactly one output per input, in order",
         ],
     },
+    "C10": {
+        "trusted_base": [
+            "modelled: the ordered byte-string map Model/KV.v (the specification itself); the four adapters kvi/*/*_store.go and the Badger/Bolt/goleveldb/Pebble libraries are NOT modelled: they are compared with the map by the correspondence check on every run",
+        ],
+        "assumptions": [
+            "keys are non-empty (Badger and Bolt reject empty keys; grip never writes one)",
+            "Next() is only issued on a valid cursor; Key()/Value() are only compared while Valid()",
+            "atomicity/rollback of Update on drivers without transactions (Pebble, LevelDB) is outside the ordered-map statement",
+        ],
+    },
 }
